@@ -10,7 +10,9 @@ Configuration lattice with EDGE invariants, executed on the real models:
  (S) SuperNet, (M) MPS per-layer / per-channel: coefficient grids in soft mode at T in {1, 20}: finite, >= 0, weight/data independent,
      finite gradients, non-zero for coefficients whose increase (finite difference) raises the metric, none to network weights;
      hard / T = 0.05: finiteness only.
- (O) ODiMO_MPS with its default DIANA latency and reduction: the cost can be evaluated at all.
+ (O) ODiMO_MPS with its default DIANA latency and parallel-accelerator reduction, weights in {2, 8} and 8-bit activations (the
+     configuration the property names): the complete soft-mode oracle of (M), single and dictionary specification; and with the
+     constructor's own default qinfo: the cost can be evaluated at all.
 """
 import itertools
 
@@ -28,7 +30,7 @@ GRID = [0.2, 0.4, 0.6, 1.0]
 RULE = ('(P) PIT programs (single / stacked Conv1d with k in {2,3,4,5}, residual, concat, depthwise, twice, 2D conv, BN) x mask-value lattice ' + str(GRID) +
         '^n (complete for n <= 5 quick / 7 thorough, one-element deviations from uniform beyond) x specs {params, params_no_bias, ops, ops_no_bias, gap8 (2D)} x '
         '{continuous, discrete}; every +1-step edge of the lattice is checked for monotonicity and gradient; (S) SuperNets x coefficient grid x T; (M) MPS per-layer / '
-        'per-channel x coefficient grid x T x {params_bit, ops_bit, mpic_latency, ne16_latency (8-bit activations)}; (O) ODiMO default; '
+        'per-channel x coefficient grid x T x {params_bit, ops_bit, mpic_latency, ne16_latency (8-bit activations)}; (O) ODiMO_MPS (default cost + reduction, w in {2,8}, a = 8) x coefficient grid x T, + the all-default constructor; '
         'non-trivial = a state with at least one mask value below 1.0 / a non-uniform coefficient vector')
 ASSUMPTIONS = ['mask values are positive grid values off the abs() kink and off the binarisation threshold',
                '"raises the metric" is decided by a finite difference: one grid step (PIT), delta = 0.05 (MPS / SuperNet soft mode)',
@@ -73,6 +75,14 @@ MPS_PROGS = [
 ]
 
 
+# ODiMO / DIANA: the analog accelerator model rejects grouped convolutions, so no depthwise stages here
+ODIMO_PROGS = [
+    {'cin': 3, 'size': 6, 'stages': [{'op': 'conv', 'cout': 3}], 'head': 'flatlin'},
+    {'cin': 3, 'size': 6, 'stages': [{'op': 'conv', 'cout': 4, 'bn': True}, {'op': 'conv', 'cout': 3, 'k': 1}], 'head': 'gaplin'},
+    {'cin': 3, 'size': 6, 'stages': [{'op': 'conv', 'cout': 3}, {'op': 'skipadd'}, {'op': 'pool'}], 'head': 'linlin'},
+]
+
+
 def cases(tier, seed):
     out = []
     for i, p in enumerate(PIT_PROGS):
@@ -84,8 +94,11 @@ def cases(tier, seed):
     for p in MPS_PROGS:
         for mode in ('layer', 'channel', 'channel0'):
             out.append({'fam': 'M', 'prog': p, 'mode': mode, 'tier': tier})
-    out.append({'fam': 'O', 'prog': MPS_PROGS[0], 'tier': tier})
-    out.append({'fam': 'O', 'prog': MPS_PROGS[1], 'tier': tier})
+    out.append({'fam': 'O', 'prog': MPS_PROGS[0], 'tier': tier, 'mode': 'default-qinfo'})
+    out.append({'fam': 'O', 'prog': ODIMO_PROGS[1], 'tier': tier, 'mode': 'default-qinfo'})
+    for p in ODIMO_PROGS:
+        out.append({'fam': 'O', 'prog': p, 'tier': tier, 'mode': 'soft'})
+    out.append({'fam': 'O', 'prog': ODIMO_PROGS[1], 'tier': tier, 'mode': 'soft-dict'})
     return out
 
 
@@ -474,30 +487,75 @@ def _run_M(case, seed, res, add, cur):
     res['sample'] = {'fam': 'M', 'prog': prog, 'mode': mode, 'selectors': [n for n, _ in sels], 'metrics': sorted(specs)}
 
 
-def _run_O(case, seed, res, add, cur):
+def _odimo(prog, seed, default_qinfo=False, as_dict=False):
     from plinio.methods.odimo_mps import ODiMO_MPS
-    prog = case['prog']
+    from plinio.methods.odimo_mps.odimo_mps import get_default_qinfo as odimo_qinfo
+    from plinio.cost import diana_latency
     model, x = G2.build(prog, seed)
-    cur[0] = {'default': True}
-    res['states'] += 1
-    res['evals'] += 1
-    res['transitions'] += 1
-    res['nontrivial'].append('O/' + str([s['op'] for s in prog['stages']]))
-    try:
-        nas = ODiMO_MPS(model, input_shape=G2.input_shape(prog))
-        nas.train()
-        nas(x)
-        c = nas.cost
-        v = float(c)
-        if not (v == v and abs(v) != float('inf')) or v < 0:
-            add('cost-not-finite-nonnegative', 'cost-not-finite-nonnegative/odimo', f'default ODiMO_MPS cost = {v}')
-        g = torch.autograd.grad(c, [p for p in nas.nas_parameters() if p.requires_grad], allow_unused=True)
-        if any(gg is not None and not torch.isfinite(gg).all() for gg in g):
-            add('gradient-not-finite', 'gradient-not-finite/odimo', 'non-finite gradient of the default ODiMO_MPS cost')
-    except Exception as e:
-        add('cost-cannot-be-evaluated', 'cost-cannot-be-evaluated/odimo-default-diana-latency',
-            f'ODiMO_MPS with its default cost (diana_latency) and reduction (odimo_mps_latency_reduction): {type(e).__name__}: {str(e)[:200]}')
-    res['sample'] = {'fam': 'O', 'prog': prog}
+    kw = {}
+    if not default_qinfo:
+        # the configuration the property names: DIANA supports ternary ("2-bit") / 8-bit weights and 8-bit activations only
+        kw['qinfo'] = odimo_qinfo(w_precision=(2, 8), a_precision=(8,))
+    if as_dict:
+        kw['cost'] = {'lat': diana_latency, 'lat2': diana_latency}
+    return ODiMO_MPS(model, input_shape=G2.input_shape(prog), **kw), x
+
+
+def _run_O(case, seed, res, add, cur):
+    """ODiMO_MPS with its default cost (diana_latency) and reduction (odimo_mps_latency_reduction).
+    mode 'soft': the configuration of the property (w in {2, 8}, a = 8) through the complete soft-mode oracle;
+    mode 'default-qinfo': the constructor's own default qinfo - the cost must be evaluable as well."""
+    prog = case['prog']
+    mode = case.get('mode', 'default-qinfo')
+    if mode == 'default-qinfo':
+        cur[0] = {'default': True}
+        res['states'] += 1
+        res['evals'] += 1
+        res['transitions'] += 1
+        res['nontrivial'].append('O/' + str([s['op'] for s in prog['stages']]))
+        try:
+            nas, x = _odimo(prog, seed, default_qinfo=True)
+            nas.train()
+            nas(x)
+            c = nas.cost
+            v = float(c)
+            if not (v == v and abs(v) != float('inf')) or v < 0:
+                add('cost-not-finite-nonnegative', 'cost-not-finite-nonnegative/odimo', f'default ODiMO_MPS cost = {v}')
+            g = torch.autograd.grad(c, [p for p in nas.nas_parameters() if p.requires_grad], allow_unused=True)
+            if any(gg is not None and not torch.isfinite(gg).all() for gg in g):
+                add('gradient-not-finite', 'gradient-not-finite/odimo', 'non-finite gradient of the default ODiMO_MPS cost')
+        except Exception as e:
+            # causal attribution: the same network with the precisions DIANA supports must be evaluable; then the only cause is the
+            # constructor's default qinfo (2,4,8) x (2,4,8), which the default cost model rejects
+            try:
+                nas2, x2 = _odimo(prog, seed)
+                nas2.train()
+                nas2(x2)
+                ok = bool(torch.isfinite(nas2.cost))
+            except Exception:
+                ok = False
+            sig = 'cost-cannot-be-evaluated/odimo-default-qinfo-outside-diana-domain' if ok else 'cost-cannot-be-evaluated/odimo'
+            add('cost-cannot-be-evaluated', sig,
+                f'ODiMO_MPS(model, input_shape) with every default (qinfo (2,4,8) x (2,4,8), diana_latency, odimo_mps_latency_reduction): '
+                f'{type(e).__name__}: {str(e)[:200]}' + (' - evaluable once qinfo is restricted to w in {2,8}, a = 8' if ok else ''))
+        res['sample'] = {'fam': 'O', 'mode': mode, 'prog': prog}
+        return
+    as_dict = mode == 'soft-dict'
+    nas, x = _odimo(prog, seed, as_dict=as_dict)
+    sels = GM.selectors(nas)
+    specs = {'lat': None, 'lat2': None} if as_dict else {None: None}
+
+    def set_opts(T, hard):
+        nas.update_softmax_options(temperature=T, hard=False, gumbel=False, disable_sampling=False)
+
+    def twin():
+        n2, _ = _odimo(prog, seed, as_dict=as_dict)
+        return n2, [m.alpha for _, m in GM.selectors(n2)], \
+            lambda T, hard: n2.update_softmax_options(temperature=T, hard=False, gumbel=False, disable_sampling=False)
+    # ODiMO does not support hard sampling (its constructor says so): soft modes only
+    _run_soft(case, seed, res, add, cur, nas, x, [m.alpha for _, m in sels], specs, 'odimo',
+              [(1.0, False), (20.0, False), (0.05, False)], set_opts, twin)
+    res['sample'] = {'fam': 'O', 'mode': mode, 'prog': prog, 'selectors': [n for n, _ in sels]}
 
 
 def run_case(case, seed):
